@@ -4,6 +4,13 @@
 // Candidates are scripted futures that complete when the test fires a oneshot; the `finish()` future is polled
 // by hand, so "time" is the sequence of test actions.  The event log records when a candidate is first polled
 // (= the attempt is STARTED), when it completes, and whether it was dropped unstarted.
+//
+// PUBLIC SURFACE ONLY in this file: `EyeballSet::{new, push, finish, len, is_empty}`, `HappyEyeballsError`,
+// `TcpTransport::{builder, connect_to_addrs}`, `TcpTransportConfig` - what a refactoring of the internals keeps.
+// Every template that names a private item (`join_next`, `join_next_with_timeout`, the `Eyeball` enum, fields of the
+// set, `SocketAddrs::pop`) lives in `replays/eyeballs_internal.rs`, included below as `mod internal`: when a change
+// re-types such an item only that file stops compiling and only it is left out of the build (vx/replay.py,
+// `_isolate_broken_replay_files`); the stand-ins and replays here still run.
 use super::*;
 use std::pin::Pin;
 use std::sync::{Arc, Mutex};
@@ -91,6 +98,13 @@ fn s(x: &str) -> String {
     x.to_string()
 }
 
+/// templates that name private items - a separate FILE so that a compile error there is attributed to it alone.
+/// (`use super::*;` is the first line of that file, not of this block: rustc's "consider importing ..." help of an error in
+/// the included file points at the module's `use` items, and a span in eyeballs.rs would implicate this file as well.)
+mod internal {
+    include!(concat!(env!("VERIF_DIR"), "/replays/eyeballs_internal.rs"));
+}
+
 /// he.empty [C10]: no candidates => Err(NoProgress), at the first poll, in every configuration
 #[tokio::test]
 async fn he_empty() {
@@ -150,6 +164,78 @@ async fn he_err_last_first() {
     }
 }
 
+/// he.err_first, he.err_last, he.join.first_error, he.wait.first_error [C10] through the public surface: EVERY candidate
+/// fails, in every configuration in which failures arrive while candidates are still queued (more candidates than the
+/// initial concurrency) as well as after all were started.  "It reports failure only after every candidate has been tried
+/// and has failed - returning the FIRST failure observed": the reported error is the one of the attempt that completed
+/// (with an error) first, whether the set was then still staggering or already draining.  Swept: initial concurrency
+/// None / 0 / 1 / 2, 1..=4 candidates, stagger delay none / finite (never firing), failure order = lowest-numbered or
+/// highest-numbered running attempt first.  (Arrival of C10-r4m1: an error that arrived while the queue was non-empty
+/// was dropped, "error 3" reported instead of "error 1"; only the one-file build failure kept that from showing.)
+#[tokio::test]
+async fn he_err_first_sweep() {
+    for ic in [None, Some(0usize), Some(1), Some(2)] {
+        for n in 1..=4usize {
+            for delay in [None, Some(LONG)] {
+                for highest_first in [false, true] {
+                    let what = format!("initial_concurrency={ic:?} candidates={n} delay={delay:?} highest_first={highest_first}");
+                    let Rig { mut set, mut tx, log } = rig(n, delay, None, ic);
+                    let mut fired: Vec<usize> = Vec::new();
+                    let mut queued_when_failed: Vec<usize> = Vec::new(); // how many candidates were not yet started at each failure
+                    let result = {
+                        let mut fut: Pin<Box<dyn Future<Output = _> + '_>> = Box::pin(set.finish());
+                        let mut result = None;
+                        for _ in 0..(4 * n + 8) {
+                            // back to the runtime: tokio's cooperative budget (128 polls of tokio resources per task poll -
+                            // the oneshot receivers of the candidates count) is refilled; without it the receivers report
+                            // Pending once the budget of this never-yielding test body is used up
+                            tokio::task::yield_now().await;
+                            match step(&mut fut).await {
+                                Poll::Ready(r) => {
+                                    result = Some(r);
+                                    break;
+                                }
+                                Poll::Pending => {
+                                    let st = starts(&log);
+                                    let running: Vec<usize> = st.iter().copied().filter(|i| tx[*i].is_some()).collect();
+                                    let pick = if highest_first { running.iter().max() } else { running.iter().min() };
+                                    if let Some(&i) = pick {
+                                        queued_when_failed.push(n - st.len());
+                                        fire(&mut tx, i, Err(format!("e{i}")));
+                                        fired.push(i);
+                                    }
+                                    // nothing running and nothing reported: the set starts the next candidate at the next poll
+                                }
+                            }
+                        }
+                        result.unwrap_or_else(|| panic!("{what}: every started attempt was failed, yet finish() never completed; started {:?}, failed {fired:?}", starts(&log)))
+                    };
+                    // only after every candidate has been tried and has failed
+                    let mut all: Vec<usize> = fired.clone();
+                    all.sort();
+                    assert_eq!(all, (0..n).collect::<Vec<_>>(), "{what}: failure reported although not every candidate was tried to its end (failed so far: {fired:?})");
+                    assert_eq!(starts(&log), (0..n).collect::<Vec<_>>(), "{what}: start order");
+                    // the first failure observed
+                    match result {
+                        Err(HappyEyeballsError::Error(e)) => assert_eq!(
+                            e,
+                            format!("e{}", fired[0]),
+                            "{what}: attempts failed in the order {fired:?} (candidates still queued at each failure: {queued_when_failed:?}); the FIRST failure must be reported"
+                        ),
+                        other => panic!("{what}: expected Err(Error(e{})), got {other:?}", fired[0]),
+                    }
+                    // the scenario the sweep is there for did occur: with more candidates than the initial batch the first
+                    // failure arrives while the queue is non-empty
+                    if ic.is_some_and(|c| c < n) && n > 1 {
+                        assert!(queued_when_failed[0] > 0, "{what}: scenario void, nothing was queued at the first failure: {queued_when_failed:?}");
+                    }
+                    assert!(set.is_empty() && set.len() == 0, "{what}: candidates left in the set after the failure was reported");
+                }
+            }
+        }
+    }
+}
+
 /// he.ok [C10], he.once [C11]: the first success is returned at once; the candidate taken out of the queue when the
 /// success arrives is dropped unstarted; nothing is started after the success
 #[tokio::test]
@@ -167,9 +253,10 @@ async fn he_ok_once() {
             other => panic!("expected Ok(7) at the poll after the success, got {other:?}"),
         }
     }
-    // nothing was put into the running set after the success (0 and 1 have completed, 2 was never started)
-    assert_eq!(set.tasks.len(), 0, "an attempt was added to the running set after the success");
-    assert_eq!(set.queue.len(), 0);
+    // nothing was put into the running set after the success (0 and 1 have completed, 2 was never started) and
+    // nothing is left queued (field-level version: internal::he_ok_once_fields)
+    assert_eq!(set.len(), 0, "an attempt was added to the running set after the success, or one is still queued");
+    assert!(set.is_empty());
     drop(set);
     let ev = events(&log);
     assert_eq!(starts(&log), vec![0, 1], "an attempt was started after (or despite) the success: {ev:?}");
@@ -302,41 +389,6 @@ async fn he_finish() {
     assert_eq!(set.finish().await, Err(HappyEyeballsError::NoProgress));
 }
 
-/// he.join.effects, he.join.first_error, he.wait.step, he.wait.first_error, he.no_panic [C10]:
-/// `join_next` hands a success out untouched, records only the FIRST failure, reports `Exhausted` iff nothing is
-/// running and never `Timeout`; an abandoned wait (`join_next_with_timeout`) consumes and records nothing
-#[tokio::test]
-async fn he_join_next() {
-    let Rig { mut set, mut tx, .. } = rig(3, Some(Duration::ZERO), None, None);
-    // nothing running: Exhausted, also through the stagger wrapper
-    assert!(matches!(set.join_next().await, Eyeball::Exhausted));
-    assert!(matches!(set.join_next_with_timeout().await, Eyeball::Exhausted));
-    for _ in 0..3 {
-        let f = set.queue.pop_front().unwrap();
-        set.tasks.push(f);
-    }
-    // all pending: the wait is abandoned, nothing consumed, nothing recorded
-    assert!(matches!(set.join_next_with_timeout().await, Eyeball::Timeout(_)));
-    assert_eq!(set.tasks.len(), 3);
-    assert!(set.error.is_none());
-    fire(&mut tx, 2, Err(s("e2")));
-    assert!(matches!(set.join_next_with_timeout().await, Eyeball::Error));
-    assert_eq!(set.error, Some(HappyEyeballsError::Error(s("e2"))));
-    assert_eq!(set.tasks.len(), 2);
-    fire(&mut tx, 0, Err(s("e0")));
-    assert!(matches!(set.join_next().await, Eyeball::Error));
-    assert_eq!(set.error, Some(HappyEyeballsError::Error(s("e2"))), "a later failure replaced the first one");
-    assert!(matches!(set.join_next_with_timeout().await, Eyeball::Timeout(_)));
-    assert_eq!(set.error, Some(HappyEyeballsError::Error(s("e2"))));
-    assert_eq!(set.tasks.len(), 1);
-    fire(&mut tx, 1, Ok(5));
-    assert!(matches!(set.join_next().await, Eyeball::Ok(5)));
-    assert_eq!(set.error, Some(HappyEyeballsError::Error(s("e2"))));
-    assert!(matches!(set.join_next().await, Eyeball::Exhausted));
-    assert_eq!(set.len(), 0);
-    assert!(set.is_empty());
-}
-
 /// he.no_panic [C10]: draining with a stagger delay configured and a candidate that never completes just keeps
 /// waiting (the `panic!("unexpected timeout")` arm is unreachable: the drain loop waits without the stagger timeout)
 #[tokio::test]
@@ -352,54 +404,21 @@ async fn he_drain_no_panic() {
     }
 }
 
-/// he.addrs.front [C11]: `SocketAddrs::pop` hands the addresses out front to back (the order in which
-/// `TcpConnecting::connect` creates and pushes the attempts)
-#[test]
-fn he_addrs_front() {
-    use crate::client::conn::dns::SocketAddrs;
-    let list: Vec<std::net::SocketAddr> =
-        vec!["10.0.0.1:80".parse().unwrap(), "[::1]:80".parse().unwrap(), "10.0.0.2:80".parse().unwrap()];
-    let mut addrs = SocketAddrs::from_iter(list.clone());
-    assert_eq!(addrs.len(), 3);
-    let mut got = Vec::new();
-    while let Some(a) = addrs.pop() {
-        got.push(a);
-    }
-    assert_eq!(got, list);
-    assert!(addrs.is_empty());
-}
-
-/// he.new.config [C10,C11]: `new` stores the pacing configuration as given - a different value in every slot, so a
-/// swapped or dropped field shows
-#[test]
-fn he_new_config() {
-    let set: Set = EyeballSet::new(Some(Duration::from_millis(7)), Some(Duration::from_secs(11)), Some(3));
-    assert_eq!(set.delay, Some(Duration::from_millis(7)), "stagger delay");
-    assert_eq!(set.timeout, Some(Duration::from_secs(11)), "overall deadline");
-    assert_eq!(set.initial_concurrency, Some(3), "initial concurrency");
-    let set: Set = EyeballSet::new(None, Some(LONG), None);
-    assert_eq!((set.delay, set.timeout, set.initial_concurrency), (None, Some(LONG), None));
-}
-
-/// he.len [C11]: every candidate is counted once, queued or running
+/// he.len [C11], he.push.back (count half) through the public surface: every pushed candidate is counted once until the
+/// operation is over (field-level version with a running batch: internal::he_len)
 #[tokio::test]
-async fn he_len() {
-    let Rig { mut set, log, tx: _tx } = rig(3, Some(LONG), None, Some(2));
-    assert_eq!(set.len(), 3, "three queued candidates");
-    assert!(!set.is_empty());
-    // start the initial batch only (the set's own step; `process_all` would already take the next candidate out of
-    // the queue while it waits): two running + one queued
-    for _ in 0..2 {
-        let f = set.queue.pop_front().unwrap();
-        set.tasks.push(f);
+async fn he_len_public() {
+    for n in 0..5usize {
+        let Rig { mut set, mut tx, .. } = rig(n, None, None, Some(1));
+        assert_eq!(set.len(), n, "{n} queued candidates");
+        assert_eq!(set.is_empty(), n == 0);
+        for i in 0..n {
+            fire(&mut tx, i, Err(format!("e{i}")));
+        }
+        let _ = set.finish().await;
+        assert_eq!(set.len(), 0, "every candidate has failed: none is counted any more");
+        assert!(set.is_empty());
     }
-    assert_eq!(set.len(), 3, "two running + one queued");
-    {
-        let mut fut: Pin<Box<dyn Future<Output = _> + '_>> = Box::pin(set.join_next());
-        assert!(step(&mut fut).await.is_pending());
-    }
-    assert_eq!(starts(&log), vec![0, 1]);
-    assert_eq!(set.len(), 3, "polling does not change the count");
 }
 
 // ======================= bounded stand-ins for the TIME clauses (outside contracts) =======================
@@ -442,6 +461,78 @@ async fn standin_stagger_not_earlier() {
     let (a1, a2) = (at(1).expect("attempt 1 started"), at(2).expect("attempt 2 started"));
     assert!(a2 >= a1 + delay - Duration::from_millis(5),
         "attempt 2 was started {:?} after attempt 1 although no attempt failed in between (stagger delay {:?}); starts: {st:?}", a2 - a1, delay);
+}
+
+/// A scripted attempt for the real-time stand-ins: records the time of its first poll (= the attempt is STARTED) and
+/// fails `fail_after` later, or hangs.
+struct TimedCand {
+    id: usize,
+    fail_after: Option<Duration>,
+    t0: std::time::Instant,
+    stamps: Arc<Mutex<Vec<(usize, Duration)>>>,
+    sleep: Option<Pin<Box<tokio::time::Sleep>>>,
+    started: bool,
+}
+impl Future for TimedCand {
+    type Output = Out;
+    fn poll(mut self: Pin<&mut Self>, cx: &mut Context<'_>) -> Poll<Out> {
+        let this = &mut *self;
+        if !this.started {
+            this.started = true;
+            this.stamps.lock().unwrap().push((this.id, this.t0.elapsed()));
+            this.sleep = this.fail_after.map(|d| Box::pin(tokio::time::sleep(d)));
+        }
+        match this.sleep.as_mut() {
+            Some(s) => match s.as_mut().poll(cx) {
+                Poll::Ready(()) => Poll::Ready(Err(format!("e{}", this.id))),
+                Poll::Pending => Poll::Pending,
+            },
+            None => Poll::Pending,
+        }
+    }
+}
+
+/// A.he.not_earlier.after_failure [C11] (also replay of he.next / he.wait.step / he.finish.paced: "a start needs a
+/// preceding wait" - here the wait must be a WHOLE stagger delay, counted from the previous start): concurrency 1,
+/// stagger delay 300 ms, attempt #0 fails 200 ms after its start - part-way through a stagger window -, #1 and #2 hang.
+/// #1 is started in #0's place at once; #2 is owed a full delay after that start, because nothing fails in between.
+/// Pinned code: starts at ~0 / 200 / 500 ms.  C11-r4m1 (fixed schedule of start times, `timeout_at(next_attempt)`, not
+/// re-based after a failure): 0 / 200 / 300 ms - #2 only 100 ms after #1.
+///
+/// One-sided against machine load.  On code that waits `delay` after the start of #1, the wait's `Sleep` (deadline =
+/// creation time + delay) is created by `join_next_with_timeout` BEFORE the running set is polled for the first time
+/// after #1 was pushed, i.e. before #1's first poll, in the same synchronous `poll` call:
+///     creation <= start(#1)   and   start(#2) >= creation + delay   (tokio timers never fire early)
+/// so start(#2) - start(#1) >= delay - (start(#1) - creation), and start(#1) - creation is the run time of a few hundred
+/// instructions between two points of one `poll` call.  Load can only shorten the gap by pre-empting the thread exactly
+/// there, and for longer than the 60 ms of slack; everything else load does (late timer, late wake-up, slow poll) makes
+/// start(#2) LATER and the gap larger.  The fault leaves a gap of delay/3 = 100 ms, 140 ms below the bound.
+/// The other assertions are never-early checks of the same kind (a start not before the event that permits it).
+#[tokio::test]
+async fn standin_stagger_not_earlier_after_failure() {
+    let delay = Duration::from_millis(300);
+    let fail_at = Duration::from_millis(200);
+    let slack = Duration::from_millis(60);
+    let stamps: Arc<Mutex<Vec<(usize, Duration)>>> = Arc::new(Mutex::new(Vec::new()));
+    let t0 = std::time::Instant::now();
+    // overall deadline 1100 ms: the operation ends on its own after #2's slot (500 ms) and before a 4th stagger tick matters
+    let mut set: EyeballSet<TimedCand, u32, String> = EyeballSet::new(Some(delay), Some(Duration::from_millis(1100)), Some(1));
+    for id in 0..3 {
+        set.push(TimedCand { id, fail_after: if id == 0 { Some(fail_at) } else { None }, t0, stamps: stamps.clone(), sleep: None, started: false });
+    }
+    let r = tokio::time::timeout(Duration::from_secs(10), set.finish()).await.expect("finish() never completed");
+    assert!(matches!(r, Err(HappyEyeballsError::Timeout(_))), "#0 failed, #1 and #2 hang: the result must be the time-out, got {r:?}");
+    let st = stamps.lock().unwrap().clone();
+    assert_eq!(st.iter().map(|(i, _)| *i).collect::<Vec<_>>(), vec![0, 1, 2], "three attempts, started in the given order, each once: {st:?}");
+    let (a0, a1, a2) = (st[0].1, st[1].1, st[2].1);
+    // never early, 1: the replacement for #0 is not started before #0 has failed (its failure timer is created at its first poll)
+    assert!(a1 >= a0 + fail_at, "attempt 1 was started {:?} after attempt 0, which fails only after {fail_at:?} (initial concurrency 1, stagger delay {delay:?}); starts: {st:?}", a1 - a0);
+    // never early, 2: no attempt failed between the start of #1 and the start of #2 - a whole stagger delay lies between them
+    assert!(
+        a2 >= a1 + delay - slack,
+        "attempt 2 was started {:?} after attempt 1 although no attempt failed in between (stagger delay {delay:?}); starts: {st:?}",
+        a2 - a1
+    );
 }
 
 /// A.he.deadline [C11]: with every attempt hanging the operation gives up at the overall deadline, also when
@@ -682,6 +773,54 @@ mod tc {
         let ms = text.strip_prefix("Connection attempts timed out after ").and_then(|t| t.strip_suffix("ms"));
         assert!(ms.is_some_and(|m| m.parse::<u128>().is_ok_and(|m| m >= 300)), "expected the time-out error with the elapsed milliseconds, got: {text}");
         assert!(e.source().is_none());
+    }
+
+    /// tc.connect.err_unchanged / tc.connect.result [C10] (also he.err_first through the real transport): every candidate
+    /// fails, one attempt at a time, and the failures differ in kind - an IPv6 candidate whose socket cannot be bound to the
+    /// configured (unassignable) local address fails in the socket set-up, the IPv4 candidates are refused.  The caller must
+    /// see the error of the attempt that failed FIRST, unchanged: with the IPv6 candidate in front the set-up error, with
+    /// the IPv6 candidate at the end the refusal.  (More candidates than the initial concurrency, so every failure but the
+    /// last arrives while candidates are still queued - the case in which C10-r4m1 drops it.)
+    #[tokio::test]
+    async fn tc_first_error_reported() {
+        use std::net::{Ipv6Addr, SocketAddr};
+        let config = || {
+            let mut c = TcpTransportConfig::default();
+            c.happy_eyeballs_timeout = None; // no sorting, no stagger: strictly in list order
+            c.happy_eyeballs_concurrency = Some(1);
+            c.local_address_ipv6 = Some("2001:db8::1".parse().unwrap()); // documentation prefix: assigned to no interface
+            c
+        };
+        let v6 = SocketAddr::new(Ipv6Addr::LOCALHOST.into(), refused_addr().port());
+        // what each kind of failure looks like on its own
+        let e_v6 = go(config(), vec![v6]).await.expect_err("the IPv6 candidate cannot be set up").to_string();
+        let e_v4 = go(config(), vec![refused_addr()]).await.expect_err("nobody listens").to_string();
+        assert!(e_v4.starts_with("tcp connect error"), "{e_v4}");
+        assert_ne!(e_v6, e_v4, "scenario void: the two kinds of failure read the same");
+        for concurrency in [Some(1usize), Some(0), Some(2)] {
+            for (candidates, first, what) in [
+                (vec![v6, refused_addr(), refused_addr()], &e_v6, "[v6 set-up failure, refused, refused]"),
+                (vec![refused_addr(), refused_addr(), v6], &e_v4, "[refused, refused, v6 set-up failure]"),
+                (vec![v6, refused_addr()], &e_v6, "[v6 set-up failure, refused]"),
+                (vec![refused_addr(), v6], &e_v4, "[refused, v6 set-up failure]"),
+            ] {
+                if concurrency == Some(2) && candidates.len() < 3 {
+                    continue; // both started at once: completion order is the reactor's business
+                }
+                if concurrency == Some(2) {
+                    // two at once: candidates 0 and 1 run together.  The set-up failure needs no I/O and completes at the first
+                    // poll; a refusal on loopback is known when connect(2) returns, but reported through the reactor.  Only the
+                    // list with the set-up failure in FRONT has a determined first failure.
+                    if first != &e_v6 {
+                        continue;
+                    }
+                }
+                let mut c = config();
+                c.happy_eyeballs_concurrency = concurrency;
+                let e = go(c, candidates).await.expect_err("no candidate accepts");
+                assert_eq!(&e.to_string(), first, "candidates {what}, initial concurrency {concurrency:?}: the caller must see the FIRST failure observed");
+            }
+        }
     }
 
     /// tc.connect.result (Ok half) / tc.attempt.dials_own_address / tc.attempt.new / tc.connecting.new [C10,C11]: the stream
